@@ -2,9 +2,11 @@
    Props/EnvelopeDec.v is weakened or renamed.  Created by tools/mkpinned.py. *)
 From Coq Require Import Reals ZArith List.
 From QV Require Import Rt.Prelude Rt.Amount Rt.Quantity Gen.Prefixes Gen.Kernels Amount.DecModel Amount.Dec Amount.DecAcc
-  Proofs.Laws Proofs.Kernel Proofs.C09 Proofs.Derived Proofs.AccDec Proofs.EnvDec.
+  Proofs.Laws Proofs.Kernel Proofs.C09 Proofs.Derived Proofs.AccDec Proofs.EnvDec Proofs.AccCatalogue Proofs.EnvCatalogue.
+From QV Require Import Macro.Defs Gen.Catalogue Macro.Inst.
 From QV Require Amount.Laws.
 From QV Require Import Props.EnvelopeDec.
+Import ListNotations.
 Local Open Scope R_scope.
 Check DEC_C18_envelope_convert : forall (S : QBase DEC), QLaws S -> forall (q : Qt S) (v : nat),
   q_unit S q <> v -> Amount.Laws.dec_ok (q_amount S q) -> dfit (u_scale S (q_unit S q)) -> dfit (u_scale S v) ->
@@ -56,5 +58,31 @@ Check DEC_C18_envelope_qty_div_rate : forall (TQ : QFull DEC) (PQ : QBase DEC) (
   Rabs (dval x1 / dval (rt_term_amount r)) <= env_hi -> Rabs (dval (rt_per_unit_multiple r)) <= env_hi ->
   Rabs (dval (rt_per_unit_multiple r) * (dval x1 / dval (rt_term_amount r))) <= env_hi ->
   exists y, tmpl_Div_Qty_Rate TQ PQ q r = Ok y.
+Check DEC_C18_catalogue_scales : forall (e : cat_entry SIPrefix) (u : nat),
+  In e catalogue_main -> gd_path (ce_gen e) = PRef ->
+  let S := base_of_gen DEC (ce_gen e) in
+  In u (u_iter S) -> dfit (u_scale S u) /\ dval (u_scale S u) <> 0.
+Check DEC_C18_catalogue_ratios :
+  map (fun e => dec_ratios_ok (ce_gen e)) catalogue_main =
+  [true; true; true; true; true; true; true; true; true; true; true; true; true; false] /\
+  nth_error catalogue_main 13 = Some cat_Volume.
+Check DEC_C18_catalogue_convert : forall (e : cat_entry SIPrefix),
+  In e catalogue_main -> gd_path (ce_gen e) = PRef -> dec_ratios_ok (ce_gen e) = true ->
+  let S := base_of_gen DEC (ce_gen e) in
+  forall (q : Qt S) (v : nat), q_unit S q <> v -> In v (u_iter S) -> In (q_unit S q) (u_iter S) ->
+  Amount.Laws.dec_ok (q_amount S q) -> Rabs (dval (q_amount S q)) <= env_hi ->
+  Rabs (dval (q_amount S q) * (dval (u_scale S (q_unit S q)) / dval (u_scale S v))) <= env_hi ->
+  exists q', HasRefUnit_convert S q v = Ok q'.
+Check DEC_C18_catalogue_arith : forall (e : cat_entry SIPrefix),
+  In e catalogue_main -> gd_path (ce_gen e) = PRef -> dec_ratios_ok (ce_gen e) = true ->
+  let S := base_of_gen DEC (ce_gen e) in
+  forall (x y : Qt S), q_unit S y <> q_unit S x -> In (q_unit S x) (u_iter S) -> In (q_unit S y) (u_iter S) ->
+  Amount.Laws.dec_ok (q_amount S x) -> Amount.Laws.dec_ok (q_amount S y) ->
+  Rabs (dval (q_amount S x)) <= env_hi -> Rabs (dval (q_amount S y)) <= env_hi ->
+  Rabs (dval (q_amount S y) * (dval (u_scale S (q_unit S y)) / dval (u_scale S (q_unit S x)))) <= env_hi ->
+  (exists r, HasRefUnit_add S x y = Ok r) /\ (exists r, HasRefUnit_sub S x y = Ok r) /\
+  (env_lo <= Rabs (dval (q_amount S y) * (dval (u_scale S (q_unit S y)) / dval (u_scale S (q_unit S x)))) ->
+   Rabs (dval (q_amount S x) / (dval (q_amount S y) * (dval (u_scale S (q_unit S y)) / dval (u_scale S (q_unit S x))))) <= env_hi ->
+   exists r, HasRefUnit_div S x y = Ok r).
 Check DEC_C18_envelope_constants : env_lo = / 1000000000000000 /\ env_hi = 100000000000000000 /\
   (forall r, in_env r <-> env_lo <= Rabs r <= env_hi).
